@@ -232,6 +232,29 @@ class Check(Property):
         twin = r.Quantity(2, "pound")
         if inside == twin and hash(inside) != hash(twin):
             v.append("C05 after leaving the context: 2 pound hashed inside the context == 2 pound built now but the hashes differ")
+        # ... and when read-only questions about OTHER unit systems were put to the registry before (base units under an explicitly
+        # named system): equal quantities written in different units still hash alike and find each other in sets / dict keys
+        from fractions import Fraction as Fr
+        for tname, mk in (("fraction", Fr), ("float", float)):
+            for sysname in ("cgs", "imperial", "US", "mks"):
+                r = regs.fresh(tname)
+                prs = [(("inch", Fr(1)), ("centimeter", Fr(127, 50))), (("pound", Fr(1)), ("gram", Fr(45359237, 100000))),
+                       (("hour", Fr(1)), ("second", Fr(3600))), (("yard", Fr(1)), ("foot", Fr(3)))]
+                if tname == "float":
+                    prs = [prs[2]]      # exactly representable factors only: float rounding is not what is probed
+                for (ua, _), (ub, _) in prs:
+                    try:
+                        r.get_base_units(ua, system=sysname)       # asked for ONE unit of each pair only
+                    except Exception:  # noqa: BLE001
+                        pass
+                for (ua, ma), (ub, mb) in prs:
+                    a_, b_ = r.Quantity(mk(ma), ua), r.Quantity(mk(mb), ub)
+                    try:
+                        if a_ == b_ and (hash(a_) != hash(b_) or b_ not in {a_}):
+                            v.append(f"C05 after get_base_units(..., system={sysname!r}) ({tname} registry): {a_!r} == {b_!r} but the hashes differ / "
+                                     f"one is not found in a set holding the other")
+                    except Exception as exc:  # noqa: BLE001
+                        v.append(f"C05 after get_base_units(..., system={sysname!r}): comparing / hashing {a_!r} and {b_!r} raised {type(exc).__name__}")
         return v[:12]
 
     def oracle(self, c):
